@@ -55,3 +55,68 @@ func (w *World) concreteTypes() []types.Type {
 }
 
 func isFloatSort(s string) bool { return s == "F64" || s == "F32" }
+
+// initNonNil reports whether the package-level variable is assigned only in the package initialiser,
+// and there with a freshly made (non-nil) map, slice, channel or pointer.
+func (w *World) initNonNil(gl *ssa.Global) bool {
+	if w.inn == nil {
+		w.inn = map[*ssa.Global]bool{}
+		bad := map[*ssa.Global]bool{}
+		for _, sp := range w.SSAPkgs {
+			for _, m := range sp.Members {
+				fn, ok := m.(*ssa.Function)
+				if !ok {
+					continue
+				}
+				var visit func(fn *ssa.Function)
+				visit = func(fn *ssa.Function) {
+					for _, b := range fn.Blocks {
+						for _, ins := range b.Instrs {
+							st, ok := ins.(*ssa.Store)
+							if !ok {
+								continue
+							}
+							g, ok := st.Addr.(*ssa.Global)
+							if !ok {
+								continue
+							}
+							fresh := false
+							switch st.Val.(type) {
+							case *ssa.MakeMap, *ssa.MakeSlice, *ssa.MakeChan, *ssa.Alloc, *ssa.MakeClosure:
+								fresh = true
+							}
+							if fn.Name() == "init" && fn.Parent() == nil && fresh {
+								w.inn[g] = true
+							} else {
+								bad[g] = true
+							}
+						}
+					}
+					for _, a := range fn.AnonFuncs {
+						visit(a)
+					}
+				}
+				visit(fn)
+			}
+			// methods
+		}
+		for _, fn := range w.Funcs {
+			if fn.Name() == "init" && fn.Parent() == nil {
+				continue
+			}
+			for _, b := range fn.Blocks {
+				for _, ins := range b.Instrs {
+					if st, ok := ins.(*ssa.Store); ok {
+						if g, ok := st.Addr.(*ssa.Global); ok {
+							bad[g] = true
+						}
+					}
+				}
+			}
+		}
+		for g := range bad {
+			delete(w.inn, g)
+		}
+	}
+	return w.inn[gl]
+}
